@@ -151,6 +151,14 @@ CheckArch(e) ==
             /\ LET ta == ToT(sp.ta)  tb == ToT(sp.tb)  tw == ToT(e.whole.tree)
                IN Sane(ta) /\ Sane(tb) /\ Sane(tw) /\ (~(AllExact(sp.ta) /\ AllExact(sp.tb) /\ AllExact(e.whole.tree)) \/ PwlEqUpToThin(ComposePieces(P0(ta), P0(tb)), P0(tw), e.dim)),
          "for some split point the trees of extract_range(0,k) and extract_range(k,n) do not compose to the tree of the whole", "arch/split")
+    \* staged distillation: afftree_from_layers(dim, layers of the second part, precondition = tree of the first part) is the whole network
+    /\ V("C18", e, ~ok \/ e.whole.res # "ok" \/ \A n \in 1..Len(e.splits) :
+            LET sp == e.splits[n] IN
+            "staged" \notin DOMAIN sp \/
+            (/\ sp.staged.res = "ok"
+             /\ LET ts == ToT(sp.staged.tree)  tw == ToT(e.whole.tree)
+                IN Sane(ts) /\ (~(AllExact(sp.staged.tree) /\ AllExact(e.whole.tree)) \/ PwlEqUpToThin(P0(ts), P0(tw), e.dim))),
+         "distilling the second part with the tree of the first part as precondition panics or differs from the tree of the whole", "arch/staged")
 
 RECURSIVE Expand(_, _, _)
 \* layers denoted by a net description: one activation entry per neuron of the preceding linear layer
